@@ -123,6 +123,50 @@ def check(run, prog, tier):
                       "operators and state vectors): nothing the constructor does after recording it - an initial condition set, a "
                       "storage allocated - writes it again", minimum=4)
     rule_N(run, prog)
+    run.rule("C08-O", "the rotating frame of a superoperator has its origin at time zero, not at the first point of the axis: "
+                      "conversion and application account for the phases at the first point", minimum=2)
+    rule_O(run, prog, cls)
+
+
+def rule_O(run, prog, cls):
+    """'... is the identity at time zero ... and applied to any state reproduces direct propagation of that state': the
+    frame rotates with the absolute time (C02-M: the propagators bring the initial state into the frame at the first point
+    of their axis, convert_from_RWA multiplies with exp(-i Omega t)).  For a superoperator in the rotating frame this
+    fixes two things whenever the axis does not start at zero: (i) converting it multiplies the *input* indices with the
+    conjugate phases of the first time - otherwise the converted superoperator at the first time is diag(phases), not
+    the identity; (ii) apply() brings the state it is given into the frame at the first time before the contraction.
+    Decided structurally: both routines compute phases from the first point of the axis (self.time.data[0], .start or
+    .min), or from time differences."""
+    rid = "C08-O"
+    n = 0
+    first = ("self.time.data[0]", "self.time.start", "self.time.min")
+
+    def reads_first(fn, depth=2, seen=None):
+        seen = seen if seen is not None else set()
+        if fn is None or fn.name in seen or depth < 0:
+            return False
+        seen.add(fn.name)
+        for x in walk_no_nested(fn.node):
+            if isinstance(x, (ast.Subscript, ast.Attribute)) and norm(x) in first:
+                return True
+            if isinstance(x, ast.Call) and isinstance(x.func, ast.Attribute) and norm(x.func.value) == "self":
+                if reads_first(prog.find_method(cls, x.func.attr), depth - 1, seen):
+                    return True
+        return False
+
+    for nme, why in (("convert_from_RWA", "the converted superoperator at the first time of the axis is a matrix of phases instead of "
+                                            "the identity"),
+                     ("apply", "the state is contracted with the rotating-frame superoperator as it is given (in the laboratory "
+                               "frame) while direct propagation rotates it into the frame at the first time first")):
+        f = prog.find_method(cls, nme)
+        if f is None:
+            raise AnalysisError("EvolutionSuperOperator.%s not found" % nme)
+        prog.consulted.add(f.relpath)
+        n += 1
+        run.obligation(rid, f.short, reads_first(f), key="frame-origin",
+                       message="%s never looks at the first time of the axis: with a frame that rotates as exp(-i Omega t) in the "
+                               "absolute time and an axis that does not start at zero, %s" % (f.short, why), loc=f.loc())
+    return n
 
 
 def rule_N(run, prog):
@@ -674,6 +718,15 @@ class _Rid:
 def rule_E(run, prog, cls):
     rid = "C08-E"
     f = cls.methods["apply"]
+    # the state contracted: target.data, or a local made from it - a copy, or what a method of self makes of the target
+    # (the state rotated into the frame of the superoperator, C08-O)
+    state_names = {"target.data"}
+    for a_ in walk_no_nested(f.node):
+        if isinstance(a_, ast.Assign) and len(a_.targets) == 1 and isinstance(a_.targets[0], ast.Name):
+            v_ = a_.value
+            if norm(v_) == "target.data" or (isinstance(v_, ast.Call) and isinstance(v_.func, ast.Attribute)
+                                             and norm(v_.func.value) == "self" and [norm(x_) for x_ in v_.args] == ["target"]):
+                state_names.add(a_.targets[0].id)
     for c in _tensordots(f.node):
         a0, a1 = norm(c.args[0]), norm(c.args[1])
         U = Array.opaque("U", 4)
@@ -683,7 +736,7 @@ def rule_E(run, prog, cls):
         if ok:
             want = (U.at("a", "b", "c", "d") * rho.at("c", "d")).sum_over("c").sum_over("d")
             ok = not normal(v.at("a", "b") - want)
-        src_ok = (a0.startswith("self.data[") or a0 == "Ut.data") and a1 == "target.data"
+        src_ok = (a0.startswith("self.data[") or a0 == "Ut.data") and a1 in state_names
         run.obligation(rid, "EvolutionSuperOperator.apply", ok and src_ok, key="contract:" + a0[:30],
                        message="apply must contract the stored tensor at the located index with the "
                                "state: sum_cd U[a,b,c,d] rho[c,d]", loc=f.loc(c), sample={"call": norm(c)})
@@ -703,7 +756,7 @@ def rule_E(run, prog, cls):
     tpar = f.node.args.args[1].arg
     ix, how, node_ = grid_index(f, tpar)
     ok = ix is not None and how == "nearest" and \
-        ("oper_ven.data = numpy.tensordot(self.data[%s, :, :, :, :], target.data)" % ix) in st
+        any(("oper_ven.data = numpy.tensordot(self.data[%s, :, :, :, :], %s)" % (ix, sn_)) in st for sn_ in state_names)
     run.obligation(rid, "EvolutionSuperOperator.apply", ok, key="located-index",
                    message="single-time apply must contract the slice at the grid point of the superoperator's own time "
                            "axis nearest to the requested time (found: index from self.time.%s)" % how, loc=f.loc(node_) if node_ is not None else f.loc())
